@@ -173,7 +173,7 @@ class C04(Property):
                 mc = model.get(c.id)
                 if mc and ic and mc[0] == "INVARIANT" and mc[1] != ic[1]:
                     out.append(Finding("disagree", c, "check_invariants: model %s vs implementation %s" % (mc[1], ic[1])))
-                # `oko`: the premise of C04_total_without_adjacent, evaluated by the extracted model
+                # `oko`: the premise of C04_total, evaluated by the extracted model
                 total_ok[c.tags["group"]] = bool(mc) and mc[0] == "INVARIANT" and len(mc) > 2 and mc[2] == "true"
         for c in cases:
             role = c.tags["role"]
@@ -189,10 +189,10 @@ class C04(Property):
                 if r:
                     out.append(Finding("disagree", c, r))
                 if total_ok.get(c.tags["group"]):
-                    dist["theorem_applies(total_without_adjacent)"] = dist.get("theorem_applies(total_without_adjacent)", 0) + 1
+                    dist["theorem_applies(C04_total)"] = dist.get("theorem_applies(C04_total)", 0) + 1
                     mc = model.get(c.id)
                     if mc and mc[0] in ("PANIC", "FUEL"):
-                        out.append(Finding("model", c, "the extracted model contradicts C04_total_without_adjacent: %s" % (mc,)))
+                        out.append(Finding("model", c, "the extracted model contradicts C04_total: %s" % (mc,)))
                 cls = compare.impl_class(ic)
                 nontrivial.append(c.line())
                 if cls in ("PANIC", "HANG", "EXIT", "MISSING"):
